@@ -63,30 +63,47 @@ fn main() {
     extra.push(shard.clone());
     let mut rng = Rng::new(seed);
     let mut out = Out::default();
+    // a panic OUTSIDE the guarded calls of a mode (a mutated /repo can make even the construction of an input
+    // panic) must not lose the cases produced so far nor the one being produced: the open case is closed with
+    // `OUT panic harness-crash <message>` and the process exits with status 3
+    let crashed = guarded(|| {
     match mode.as_str() {
-        "store" => store::run(&mut rng, count, thorough, &mut out),
-        "components" => components::run(&mut rng, count, thorough, &mut out),
-        "equiv" => equiv::run(&mut rng, count, thorough, &equiv::Cfg::from_extra(&extra), &mut out),
-        "static" => statics::run(&mut rng, count, thorough, &statics::Cfg::from_extra(&extra, 1), &mut out),
-        "meta" => meta::run_meta(&mut rng, count, thorough, &extra, &mut out),
-        "cross" => meta::run_cross(&mut rng, count, thorough, &extra, &mut out),
-        "encoders" => encoders::run(&mut rng, count, thorough, &extra, &mut out),
-        "readers" => readers::run_readers(&mut rng, count, thorough, &shard, &mut out),
-        "writers" => readers::run_writers(&mut rng, count, thorough, &mut out),
-        "satobj" => satobj::run_satobj(&mut rng, count, thorough, &extra, &mut out),
-        "dimacs" => satobj::run_dimacs(&mut rng, count, thorough, &extra, &mut out),
-        "reply" => satobj::run_reply(&mut rng, count, thorough, &extra, &mut out),
-        "pipe" => satobj::run_pipe(&mut rng, count, thorough, &extra, &mut out),
-        "cli" => cli::run(&mut rng, count, thorough, &extra, outp.as_deref(), &mut out),
-        "dynamic" => dynamic::run(&mut rng, count, thorough, &extra, &mut out),
-        "static-multi" => statics::run(&mut rng, count, thorough, &statics::Cfg::from_extra(&extra, 3), &mut out),
-        _ => {
-            eprintln!("unknown mode {}", mode);
-            std::process::exit(2);
+            "store" => store::run(&mut rng, count, thorough, &mut out),
+            "components" => components::run(&mut rng, count, thorough, &mut out),
+            "equiv" => equiv::run(&mut rng, count, thorough, &equiv::Cfg::from_extra(&extra), &mut out),
+            "static" => statics::run(&mut rng, count, thorough, &statics::Cfg::from_extra(&extra, 1), &mut out),
+            "meta" => meta::run_meta(&mut rng, count, thorough, &extra, &mut out),
+            "cross" => meta::run_cross(&mut rng, count, thorough, &extra, &mut out),
+            "encoders" => encoders::run(&mut rng, count, thorough, &extra, &mut out),
+            "readers" => readers::run_readers(&mut rng, count, thorough, &shard, &mut out),
+            "writers" => readers::run_writers(&mut rng, count, thorough, &mut out),
+            "satobj" => satobj::run_satobj(&mut rng, count, thorough, &extra, &mut out),
+            "dimacs" => satobj::run_dimacs(&mut rng, count, thorough, &extra, &mut out),
+            "reply" => satobj::run_reply(&mut rng, count, thorough, &extra, &mut out),
+            "pipe" => satobj::run_pipe(&mut rng, count, thorough, &extra, &mut out),
+            "cli" => cli::run(&mut rng, count, thorough, &extra, outp.as_deref(), &mut out),
+            "dynamic" => dynamic::run(&mut rng, count, thorough, &extra, &mut out),
+            "static-multi" => statics::run(&mut rng, count, thorough, &statics::Cfg::from_extra(&extra, 3), &mut out),
+            _ => {
+                eprintln!("unknown mode {}", mode);
+                std::process::exit(2);
+            }
         }
+    });
+    if let Err(msg) = &crashed {
+        let open = out.buf.rfind("\nCASE ").map_or(out.buf.starts_with("CASE "), |p| !out.buf[p..].contains("\nEND\n"));
+        if !open {
+            out.case("crash");
+            out.inp(&format!("crash outside a case in mode {}", mode));
+        }
+        out.out(&format!("panic harness-crash {}", msg));
+        out.end();
     }
     match outp {
         Some(p) => std::fs::write(p, out.buf).unwrap(),
         None => print!("{}", out.buf),
+    }
+    if crashed.is_err() {
+        std::process::exit(3);
     }
 }
